@@ -316,10 +316,11 @@ def finish(report, min_report=25):
     if fresh and os.environ.get("VERIF_TRIAGE"):
         groups = {}
         for v in fresh:
-            key = (v.get("clause"), v.get("klass"), tuple(sorted(t for t in (v.get("tokens") or ()) if not t.startswith("kind="))))
-            groups.setdefault(key, []).append(v)
-        for key, vs in sorted(groups.items(), key=lambda kv: -len(kv[1])):
-            sys.stdout.write("TRIAGE %5d %s\n        e.g. %s\n" % (len(vs), key, json.dumps(jsonable(vs[0].get("case")))[:300]))
+            groups.setdefault((v.get("clause"), v.get("klass")), []).append(v)
+        for key, vs in sorted(groups.items(), key=lambda kv: -len(kv[1]))[:40]:
+            sys.stdout.write("TRIAGE %5d %s toks=%s\n        e.g. %s :: %s\n" % (
+                len(vs), key, sorted(t for t in (vs[0].get("tokens") or ()))[:12],
+                json.dumps(jsonable(vs[0].get("case")))[:260], json.dumps(jsonable(vs[0].get("detail")))[:260]))
     rdir = os.path.join(VERIF, "replays", prop)
     lines = []
     seen_classes = set()
